@@ -267,9 +267,14 @@ class BaseTableCoordinate(abc.ABC):
         A gWCS object representing all the coordinates.
         """
         model = self.model
+        input_frame = _generate_generic_frame(model.n_inputs, u.pix)
+        output_frame = self.frame
+        # Frames of a gWCS must have different names, also when the tables are in pixel units.
+        if getattr(output_frame, "name", None) == input_frame.name:
+            input_frame.name = "InputPixelFrame"
         return gwcs.WCS(forward_transform=model,
-                        input_frame=_generate_generic_frame(model.n_inputs, u.pix),
-                        output_frame=self.frame)
+                        input_frame=input_frame,
+                        output_frame=output_frame)
 
     @property
     def dropped_world_dimensions(self):
